@@ -9,6 +9,8 @@ pub mod memory_store;
 pub mod protocol;
 pub mod server;
 pub mod version;
+#[cfg(memcrs_verif)]
+pub mod verif;
 
 #[cfg(test)]
 mod mock;
